@@ -9,6 +9,7 @@ from pbt.samples import derived_from_used_parent, call, raised, build, sample_sp
 
 ID = 'C05'
 LEVEL = 'exploration'
+ENGINES = ['hypothesis', 'enumeration of (integer levels x bin count)']
 RULE = ('Hypothesis draws an event set (2..300 events: small-integer grid with heavy ties, Gaussian blob, blob + '
         'uniform background, two blobs; optionally events placed exactly on drawn bin edges and outside an '
         'explicit grid), a bin specification (count, [nx,ny], explicit uniform / non-uniform edges, per-axis '
@@ -29,9 +30,9 @@ BUDGET = {
 @st.composite
 def _edges(draw):
     n = draw(st.integers(2, 10))
-    lo = draw(st.sampled_from([0.0, -1.0, 0.5, 2.0]))
+    lo = draw(st.sampled_from([0.0, -1.0, 0.5, 2.0, 0.05]))
     if draw(st.booleans()):
-        w = draw(st.sampled_from([1.0, 0.5, 2.0, 1.25]))
+        w = draw(st.sampled_from([1.0, 0.5, 2.0, 1.25, 0.1, 0.3]))       # decimal widths: edges that single precision cannot hold
         return [lo + w * i for i in range(n + 1)]
     e = [lo]
     for _ in range(n):
@@ -56,7 +57,8 @@ def _array_case(draw):
         # exactly on the edge, or a hair off it (one ulp, or 2e-6 relative: inside the tolerance of an `isclose`)
         nudge = st.sampled_from([0, 0, 0, 1, -1, 2, -2])
         on_edges.append([draw(st.integers(0, n - 1)), ex, ey, draw(nudge), draw(nudge)])
-    return dict(arm='array', n=n, kind=kind, data_seed=draw(st.integers(0, 2 ** 20)), on_edges=on_edges,
+    return dict(arm='array', dtype=draw(st.sampled_from([None, None, None, None, 'float32'])) if kind != 'grid' else None,
+                n=n, kind=kind, data_seed=draw(st.integers(0, 2 ** 20)), on_edges=on_edges,
                 bins_form=form, bx=bx, by=by, integer=draw(st.booleans()) if kind == 'grid' else False)
 
 
@@ -104,10 +106,45 @@ def strategy(tier):
     return _case()
 
 
+# integer-valued events x a number of equal-width bins: every pair (number of levels, number of bins), because whether
+# a level falls exactly on an interior edge (and on which side rounding puts it) depends on both
+def exhaustive_jobs(tier):
+    top = 40 if tier == 'quick' else 64
+    return [[(L, nb) for nb in range(2, top)] for L in range(1, top)]
+
+
+def run_job(job):
+    from pbt.runner import Obs
+    ev = nt = 0
+    failures, claims = [], {}
+    for L, nb in job:
+        case = dict(arm='array', dtype=None, n=3 * (L + 1), kind='levels', levels=L, data_seed=0, on_edges=[], bins_form='count',
+                    bx=nb, by=nb, integer=(L + nb) % 2 == 0, f=0.5, f2=0.8, sigma=[1.0, 1.0][0] if nb % 3 else 0.0, perm_seed=L * 100 + nb,
+                    refuse=None)
+        obs = Obs()
+        try:
+            check(case, obs)
+        except Exception as e:
+            obs.failures.append(('crash', 'levels %d bins %d: %s: %s' % (L, nb, type(e).__name__, e)))
+        ev += 1
+        nt += 1
+        for k_, v_ in obs.claims.items():
+            claims[k_] = claims.get(k_, 0) + v_
+        for t, m in obs.failures[:2]:
+            if len(failures) < 5:
+                failures.append((t, m, case))
+    return dict(evaluations=ev, nontrivial=nt, failures=failures, labels={'levels_x_bins': ev}, claims=claims, samples=[], complete=True)
+
+
 def _events(c):
     rng = np.random.Generator(np.random.PCG64(c['data_seed']))
     n, kind = c['n'], c['kind']
-    if kind == 'grid':
+    if kind == 'levels':
+        # every integer level 0..L three times, the second channel a permutation of the first
+        L = c['levels']
+        i = np.arange(n)
+        X = np.column_stack([i % (L + 1), (i * 7 + 3) % (L + 1)]).astype(float)
+    elif kind == 'grid':
         X = rng.integers(0, 8, size=(n, 2)).astype(float)
     elif kind == 'blob':
         X = rng.normal(4, 1.5, size=(n, 2))
@@ -128,6 +165,8 @@ def _events(c):
         X[r] = [nudged(ex, kx), nudged(ey, ky)]
     if c.get('integer'):
         X = np.round(X).astype(np.int64)
+    if c.get('dtype') == 'float32':
+        X = X.astype(np.float32)            # single-precision events (an event "on" a decimal edge is then a hair off it)
     return X
 
 
